@@ -59,7 +59,9 @@ def transformSrc (p : Params) (X : Mat) : Mat := X.map (transformRowSrc p (trans
   `corrsrc.means <X> <ids>`                       what fit stores as sensitive_mean_
   `corrsrc.split <m> <ids>`                       kept column positions, in output order
   `corrsrc.normal <X> <ids> <beta>`               Aᵀ(USE − A·beta), A = first lstsq operand of fit
-  `corrsrc.transform <X> <ids> <mean> <beta> <alpha>`   transform of the batch X with the fitted state -/
+  `corrsrc.transform <X> <ids> <mean> <beta> <alpha>`   transform of the batch X with the fitted state
+  `corrsrc.lookup df <column name codes> <sensitive name codes>` / `corrsrc.lookup arr <m> <ids>`
+                                                  `sensitive` of `_split_X` through the lifted `_create_lookup` table -/
 def handle (toks : List String) : Option String :=
   match toks with
   | ["corrsrc.means", x, ids] => do
@@ -93,6 +95,16 @@ def handle (toks : List String) : Option String :=
     if X.isEmpty || !wellShaped m X || !okIds ids m || mean.length != ids.length
         || !okBeta β ids.length mz then none
     else pure (Proto.fmtMat (transformSrc ⟨ids, m, mean, β, α⟩ X))
+  | ["corrsrc.lookup", "df", cols, names] => do
+    let cols ← Proto.parseNats cols
+    let names ← Proto.parseNats names
+    if !names.all (fun c => cols.contains c) then none
+    else pure (Proto.fmtNats (CorrRemoverSrc.sensitiveIdx (CorrRemoverSrc.lookupDataFrame cols) names))
+  | ["corrsrc.lookup", "arr", m, ids] => do
+    let m ← Proto.parseNat m
+    let ids ← Proto.parseNats ids
+    if !okIds ids m then none
+    else pure (Proto.fmtNats (CorrRemoverSrc.sensitiveIdx (CorrRemoverSrc.lookupArray m) ids))
   | _ => none
 
 end CorrL
